@@ -149,7 +149,21 @@ pub struct Ctx {
     pub threads: usize,
 }
 
+/// A hand-written regression / known-finding case that bypasses the generator library.
+pub struct FixedCase {
+    pub name: &'static str,
+    /// id of the known finding this case demonstrates (None: plain regression case)
+    pub finding: Option<&'static str>,
+    pub what: &'static str,
+    pub run: Box<dyn Fn(&mut Stats) -> PResult + Send + Sync>,
+}
+
 pub trait Prop: Sync {
+    /// explicit regression cases (shrunk counter-examples of fixed defects, sensitivity seeds)
+    /// and demonstrations of open known findings
+    fn fixed_cases(&self) -> Vec<FixedCase> {
+        vec![]
+    }
     fn id(&self) -> &'static str;
     fn level(&self) -> &'static str {
         "exploration"
@@ -267,6 +281,25 @@ fn read_tape(path: &Path) -> Result<Vec<u16>, String> {
     let v: Value = serde_json::from_str(&s).map_err(|e| format!("{}: {e}", path.display()))?;
     let arr = v["tape"].as_array().ok_or_else(|| format!("{}: no tape", path.display()))?;
     Ok(arr.iter().map(|x| x.as_u64().unwrap_or(0) as u16).collect())
+}
+
+fn ensure_fixed_case_file(path: &Path, prop: &str, fc: &FixedCase) {
+    if !path.exists() {
+        if let Some(d) = path.parent() {
+            let _ = std::fs::create_dir_all(d);
+        }
+        let v = json!({"property": prop, "fixed_case": fc.name, "what": fc.what, "finding": fc.finding});
+        let _ = std::fs::write(path, serde_json::to_string_pretty(&v).unwrap());
+    }
+}
+
+/// Write the replay descriptor files of all fixed cases (so that they can be committed).
+pub fn dump_fixed_cases(prop: &dyn Prop, root: &Path) {
+    for fc in prop.fixed_cases() {
+        let path = root.join("replays").join("regress").join(prop.id()).join(format!("{}.json", fc.name));
+        let _ = std::fs::remove_file(&path);
+        ensure_fixed_case_file(&path, prop.id(), &fc);
+    }
 }
 
 fn write_replay(ctx: &Ctx, prop: &dyn Prop, tape: &[u16], msg: &str, tag: &str) -> PathBuf {
@@ -434,6 +467,34 @@ pub fn drive(prop: &dyn Prop, ctx: &Ctx, replay: Option<&Path>, cases_override: 
     install_quiet_panic_hook();
 
     if let Some(path) = replay {
+        if let Some(name) = std::fs::read_to_string(path).ok().and_then(|t| serde_json::from_str::<Value>(&t).ok()).and_then(|v| v["fixed_case"].as_str().map(|x| x.to_string())) {
+            let Some(fc) = prop.fixed_cases().into_iter().find(|f| f.name == name) else {
+                eprintln!("unknown fixed case {name}");
+                return 2;
+            };
+            let mut st = Stats { frozen: true, ..Stats::default() };
+            let r = match guard(|| (fc.run)(&mut st)) {
+                Ok(r) => r,
+                Err(p) => Err(Failure::new(format!("panic: {p}"))),
+            };
+            let open = fc.finding.is_some_and(finding_open);
+            return match r {
+                Ok(()) => {
+                    println!("replay passed: property={} fixed case {}", prop.id(), name);
+                    0
+                }
+                Err(f) => {
+                    println!("{}", f.msg);
+                    if open {
+                        println!("KNOWN-FINDING: property={} {} (fixed case {})", prop.id(), fc.finding.unwrap(), name);
+                        0
+                    } else {
+                        println!("VIOLATION property={} replay={}", prop.id(), path.display());
+                        1
+                    }
+                }
+            };
+        }
         let tape = match read_tape(path) {
             Ok(t) => t,
             Err(e) => {
@@ -465,60 +526,41 @@ pub fn drive(prop: &dyn Prop, ctx: &Ctx, replay: Option<&Path>, cases_override: 
     let mut notes: Vec<String> = vec![];
     let mut violation: Option<(PathBuf, String)> = None;
 
-    // 1. regression tier
-    let regress_dir = ctx.root.join("replays").join("regress").join(prop.id());
-    let mut files: Vec<PathBuf> = std::fs::read_dir(&regress_dir)
-        .map(|d| d.filter_map(|e| e.ok().map(|e| e.path())).filter(|p| p.extension().is_some_and(|e| e == "json")).collect())
-        .unwrap_or_default();
-    files.sort();
+    // 1. regression tier: explicit cases that bypass the generator
+    let fixed = prop.fixed_cases();
+    let findings = findings_for(prop.id());
     let mut regress_run = 0;
-    for f in &files {
-        let Ok(tape) = read_tape(f) else { continue };
+    for fc in &fixed {
         regress_run += 1;
         let mut st = Stats::default();
         st.cases += 1;
-        let r = run_guarded(prop, &tape, &mut st);
-        total.merge(st);
-        if let Err(fl) = r {
-            if fl.known.is_none() && violation.is_none() {
-                println!("regression replay failed: {}\n{}", f.display(), fl.msg);
-                violation = Some((f.clone(), fl.msg));
-            }
-        }
-    }
-    notes.push(format!("regression replays run: {regress_run}"));
-
-    // 2. known findings of this property
-    for kf in findings_for(prop.id()) {
-        let Some(rp) = &kf.replay else { continue };
-        let path = ctx.root.join(rp);
-        let Ok(tape) = read_tape(&path) else {
-            notes.push(format!("known finding {}: replay unreadable", kf.id));
-            continue;
+        let r = match guard(|| (fc.run)(&mut st)) {
+            Ok(r) => r,
+            Err(p) => Err(Failure::new(format!("panic in fixed case {}: {p}", fc.name))),
         };
-        let mut st = Stats { frozen: true, ..Stats::default() };
-        let r = run_guarded(prop, &tape, &mut st);
-        match (kf.status.as_str(), r) {
-            ("open", Err(f)) if f.known.as_deref() == Some(kf.id.as_str()) => {
-                println!("KNOWN-FINDING: property={} {}: {}", prop.id(), kf.id, kf.what);
-            }
-            ("open", Err(f)) => {
-                if violation.is_none() {
-                    println!("replay of known finding {} fails with a different signature:\n{}", kf.id, f.msg);
-                    violation = Some((path.clone(), f.msg));
+        total.merge(st);
+        let path = ctx.root.join("replays").join("regress").join(prop.id()).join(format!("{}.json", fc.name));
+        let status = fc.finding.and_then(|id| findings.iter().find(|f| f.id == id).map(|f| f.status.clone()));
+        match (status.as_deref(), r) {
+            (Some("open"), Err(f)) => {
+                let kf = findings.iter().find(|k| Some(k.id.as_str()) == fc.finding).unwrap();
+                if f.known.as_deref() == fc.finding || f.known.is_none() {
+                    println!("KNOWN-FINDING: property={} {}: {}", prop.id(), kf.id, kf.what);
+                    *total.known_hits.entry(kf.id.clone()).or_default() += 1;
                 }
             }
-            ("open", Ok(())) => notes.push(format!("known finding {} no longer reproduces", kf.id)),
+            (Some("open"), Ok(())) => notes.push(format!("known finding {} no longer reproduces with fixed case {}", fc.finding.unwrap_or(""), fc.name)),
             (_, Err(f)) => {
-                // fixed finding returned
                 if violation.is_none() {
-                    println!("fixed finding {} is back:\n{}", kf.id, f.msg);
+                    println!("regression case {} failed ({}):\n{}", fc.name, fc.what, f.msg);
+                    ensure_fixed_case_file(&path, prop.id(), fc);
                     violation = Some((path.clone(), f.msg));
                 }
             }
             (_, Ok(())) => {}
         }
     }
+    notes.push(format!("fixed regression / known-finding cases run: {regress_run}"));
 
     // 3. generation
     if violation.is_none() {
